@@ -318,6 +318,27 @@ func c14ExtraTrees() map[string]*world.Config {
 		lk.Keys = sortKeysC14(lk)
 		out["200-byte-keys/"+sf] = lk
 		out["40-keys-default-bf16/"+sf] = world.UintCfg(16, urange(1, 40), 1, f, "none")
+		// the library's default marshaler (RemoteConfig.Marshal left nil) on characters that encoding/json
+		// escapes (<, >, &, U+2028): string values, string keys and struct keys (their layer and order too)
+		hv := world.IntCfg(4, []int{1, 2, 3, 4, 5}, []interface{}{"a&b<c>d\u2028e"}, "", f, "none")
+		hv.DefaultMarshal = true
+		out["default-marshaler-html-characters-in-values/"+sf] = hv
+		hk := world.StringCfg(2, []uint8{0, 1, 0, 0}, f, "none")
+		for i := range hk.Keys {
+			hk.Keys[i] = hk.Keys[i].(string) + []string{"&", "<x>", "a&&b", "\u2028"}[i%4]
+		}
+		hk.Keys = sortKeysC14(hk)
+		hk.DefaultMarshal = true
+		out["default-marshaler-html-characters-in-string-keys/"+sf] = hk
+		hs := world.StructCfg(2, []uint8{0, 1, 0, 2, 0, 0}, f, "none")
+		for i := range hs.Keys {
+			k := hs.Keys[i].(world.SKey)
+			k.A = []string{"<", "&", ">", "a&b"}[i%4] + k.A
+			hs.Keys[i] = k
+		}
+		hs.Keys = sortKeysC14(hs)
+		hs.DefaultMarshal = true
+		out["default-marshaler-html-characters-in-struct-keys/"+sf] = hs
 		// lengths at the one-byte / two-byte / three-byte uvarint boundaries: element bodies of exactly
 		// 127, 128, 129 and 16383, 16384, 16385 bytes (a JSON string of n characters is n+2 bytes), string
 		// keys of those body lengths, and single nodes holding exactly 127, 128 and 129 entries
